@@ -43,7 +43,7 @@ static void mgc_task(void *cookie)
 	g_runs[i]++;
 	g_expected--;
 	__CPROVER_assert(!iv_task_registered((struct iv_task *)v_t[i]), "[C06,C01] task is already unregistered on entry to its handler");
-	__CPROVER_assert(v_t[i]->epoch == v_state.task_epoch, "[C06] task is stamped with the current round before its handler");
+	__CPROVER_assert(v_t[i]->epoch == v_state.task_epoch, "[C06,C02] task is stamped with the current round before its handler");
 	__CPROVER_assert(v_state.numobjs == g_expected, "[C07] object count is exact at handler entry");
 	__CPROVER_assert(v_state.tasks_current != NULL, "[C06] a round is marked as running during handlers");
 
@@ -108,7 +108,7 @@ void h_iv_run_tasks(void)
 	__CPROVER_assert(v_state.tasks_current == NULL, "[C06] no round is marked running after iv_run_tasks");
 	__CPROVER_assert(v_state.numobjs == g_expected, "[C07] object count exact after the round (auto-unregister of every task that ran)");
 	for (i = 0; i < NT; i++) {
-		__CPROVER_assert(g_runs[i] <= 1, "[C06] a task runs at most once per round");
+		__CPROVER_assert(g_runs[i] <= 1, "[C06,C02] a task runs at most once per round: a task that re-registers itself is deferred past the next kernel poll, so ready descriptors, timers and events are still serviced");
 		if (g_freed[i])
 			continue;
 		__CPROVER_assert(IFF(g_pending[i], iv_task_registered((struct iv_task *)v_t[i])), "[C06] registered afterwards iff a registration is still owed a run");
